@@ -1,0 +1,31 @@
+//go:build verif
+
+package acme
+
+import "crypto"
+
+// Hooks for verification check C49 (/verif/checks/c49): exported access to the
+// unexported JWS helpers. Add-only; compiled only with the "verif" build tag.
+
+// VerifC49JWSEncodeJSON is jwsEncodeJSON.
+func VerifC49JWSEncodeJSON(claimset interface{}, key crypto.Signer, kid KeyID, nonce, url string) ([]byte, error) {
+	return jwsEncodeJSON(claimset, key, kid, nonce, url)
+}
+
+// VerifC49JWKEncode is jwkEncode.
+func VerifC49JWKEncode(pub crypto.PublicKey) (string, error) { return jwkEncode(pub) }
+
+// VerifC49JWSWithMAC is jwsWithMAC; it returns the three members of the flattened JWS.
+func VerifC49JWSWithMAC(key []byte, kid, url string, rawPayload []byte) (protected, payload, sig string, err error) {
+	j, err := jwsWithMAC(key, kid, url, rawPayload)
+	if err != nil {
+		return "", "", "", err
+	}
+	return j.Protected, j.Payload, j.Sig, nil
+}
+
+// VerifC49JWKThumbprint is JWKThumbprint (already exported; listed for completeness).
+func VerifC49JWKThumbprint(pub crypto.PublicKey) (string, error) { return JWKThumbprint(pub) }
+
+// VerifC49NoPayload is the noPayload marker (POST-as-GET).
+const VerifC49NoPayload = noPayload
